@@ -150,7 +150,23 @@ func ruleC08Finish(cx *Ctx) {
 		})
 		cx.R.Check(finishCalls >= 1, rule, fname, "finish in defer", cx.P.where(def), "the deferred closure runs the finish callback")
 		if name == "doBulkCall" {
-			cx.R.Check(inLoop, rule, fname, "finish every record", cx.P.where(def), "the finish callback runs in a loop over the bulk map (all records, fake ones included)")
+			// the records finished are the values of a range over the bulk map itself - not records looked up through
+			// keys kept elsewhere (a slice that was also handed to the user's loader can be rewritten by it)
+			overMap := false
+			allInstrs(cl, func(in ssa.Instruction) {
+				cc := callCommon(in)
+				if cc == nil || cc.IsInvoke() || cc.StaticCallee() != nil || rootOf(cc.Value) != ssa.Value(bparam(fn, 4)) || len(cc.Args) != 1 {
+					return
+				}
+				if ex, ok := cc.Args[0].(*ssa.Extract); ok && ex.Index == 2 {
+					if nx, ok := ex.Tuple.(*ssa.Next); ok {
+						if rg, ok := nx.Iter.(*ssa.Range); ok && rootOf(rg.X) == ssa.Value(bparam(fn, 2)) {
+							overMap = true
+						}
+					}
+				}
+			})
+			cx.R.Check(inLoop && overMap, rule, fname, "finish every record", cx.P.where(def), "the finish callback runs in a range over the bulk map itself (all records, fake ones included; not via keys that the loader could have rewritten)")
 		}
 		// the finish callback is not conditional on recover()/err
 		ok := true
